@@ -10,6 +10,7 @@
 import Scico.Proofs.Shape
 import Scico.Proofs.ShapeExt
 import Scico.Proofs.OpAlgReject
+import Scico.Proofs.OpAlgDtU
 
 namespace Scico.Props.C12
 open Scico.Shape
@@ -187,6 +188,33 @@ theorem C12_adj_enforces (o : Obj K) (ysh : Shape) (ydt : DT) (y : Vc K) :
     · have hd' : ¬ ydt = o.md.outDt := fun hh => hd hh.symm
       simp [hc, hd, hd']
 
+/-- **Declared dtypes are the returned dtypes** (any expression, linear or not, any depth).
+    Under the agreement conditions that scico does not check itself (`DtAgrees`: the operands of a
+    *generic* sum declare the same dtypes, a composition through `Operator.__call__` chains its dtypes,
+    a hand-written `adj_fn` returns the input dtype) evaluation on the declared input dtype returns
+    exactly the declared output dtype, and `adj` accepts the declared output dtype (its dtype check and
+    every inner one pass) and returns the declared input dtype.  Closed-form results (`MatrixOperator`,
+    `Diagonal`, `ScaledIdentity`, `Identity`) need no condition.  The excluded cases are exactly the
+    recorded findings `mixed-operand-dtypes` / `adj-dtype-check-mixed` (see the negative example). -/
+theorem C12_dtype_sound (e : LExpr K) (o : Obj K) (hb : build e = .ok o) (hg : DtAgrees e) :
+    o.evalDt o.md.inDt = .ok o.md.outDt
+    ∧ (o.md.cls ≠ .op → o.adjCallDt o.md.outDt = .ok o.md.inDt)
+    ∧ (o.md.cls = .matrix → o.md.outDt = o.md.inDt) :=
+  let h := build_dt e o hg hb
+  ⟨h.ev, h.ad, h.mx⟩
+
+/-- **Dtype-uniform expressions** (a syntactic condition: every leaf is declared with the one dtype
+    `dt`, scalar factors do not change it — Python floats always, Python complex numbers for a complex
+    `dt`): every derived operator declares `dt` on both sides and returns it, forward and adjoint. -/
+theorem C12_dtype_sound_uniform (dt : DT) (e : LExpr K) (o : Obj K) (hu : Uniform dt e)
+    (hb : build e = .ok o) :
+    o.md.inDt = dt ∧ o.md.outDt = dt ∧ o.evalDt dt = .ok dt
+    ∧ (o.md.cls ≠ .op → o.adjCallDt dt = .ok dt) := by
+  obtain ⟨hU, hD⟩ := build_uniform dt e o hu hb
+  refine ⟨hU.inD, hU.outD, ?_, fun hc => ?_⟩
+  · have := hD.ev; rwa [hU.inD, hU.outD] at this
+  · have := hD.ad hc; rwa [hU.inD, hU.outD] at this
+
 /-- `jax.numpy.result_type` on scico's four dtypes is the join of a lattice: commutative,
     associative, idempotent, with `float32` as bottom — so the declared dtype of a sum does not
     depend on operand order or grouping. -/
@@ -196,5 +224,40 @@ theorem C12_resultType_lattice (a b c : DT) :
   cases a <;> cases b <;> cases c <;> decide
 
 end opmeta
+
+/-! ### non-vacuity of the dtype theorems -/
+section dtexamples
+open Scico.OpAlg Scico.DType
+attribute [local instance] starConj
+
+instance : StarRing ℚ := starRingOfComm
+instance : HasRe ℚ := ⟨id⟩
+
+/-- `(2·I − D) @ M.H + M.gram_op`, everything float64: dtype-uniform -/
+def dtM : LExpr ℚ := .mat 3 3 .f64 (fun i j => (i : ℚ) + 2 * j)
+def dtD : LExpr ℚ := .diag (.plain [3]) .f64 none none (fun i => (i : ℚ) - 1)
+def dtE : LExpr ℚ :=
+  .add (.matmul (.sub (.smulL ⟨2, .pyFloat⟩ (.ident (.plain [3]) .f64)) dtD) (.H dtM)) (.gram dtM)
+
+example : Uniform .f64 dtE := by
+  simp only [dtE, dtM, dtD, Uniform, ScalOk]
+  decide
+example : ∃ o, build dtE = .ok o := ⟨_, rfl⟩
+
+/-- the recorded finding `mixed-operand-dtypes`: `Diagonal(float64) + LinearOperator(input_dtype =
+    complex128)` with a real matrix — accepted, declares float64 → complex128, returns float64.
+    The hypothesis `DtAgrees` fails exactly at the sum, and so does the conclusion. -/
+def dtMixed : LExpr ℚ :=
+  .add (.diag (.plain [2]) .f64 none none (fun _ => 1))
+       (.lin (.plain [2]) (.plain [2]) .c128 .f64 true (fun i j => if i = j then 2 else 0))
+
+example : ∃ o, build dtMixed = .ok o ∧ o.md.inDt = .f64 ∧ o.md.outDt = .c128
+    ∧ o.evalDt o.md.inDt = .ok .f64 := ⟨_, rfl, rfl, rfl, rfl⟩
+example : ¬ DtAgrees dtMixed := by
+  intro h
+  have := h.2.2 _ _ _ rfl rfl rfl (Or.inr rfl)
+  exact absurd this.1 (by decide)
+
+end dtexamples
 
 end Scico.Props.C12
